@@ -715,18 +715,25 @@ def _get_reference_activated_flow_instance(
         matching_parameters: bool = True
         for idx, arg in enumerate(state.flow_configs[flow_id].parameters):
             val = activated_flow.arguments[arg.name]
+
+            def same_value(other: Any) -> bool:
+                # (True and 1, or 1 and 1.0, are different argument values)
+                return type(val) is type(other) and val == other
+
             # Named flow parameters
-            matched = arg.name in event.arguments and val == event.arguments[arg.name]
+            matched = arg.name in event.arguments and same_value(
+                event.arguments[arg.name]
+            )
             # Positional flow parameters
-            matched |= (
-                f"${idx}" in event.arguments and val == event.arguments[f"${idx}"]
+            matched |= f"${idx}" in event.arguments and same_value(
+                event.arguments[f"${idx}"]
             )
             # Default flow parameters
             matched |= (
                 arg.name not in event.arguments
                 and f"${idx}" not in event.arguments
                 and arg.default_value_expr is not None
-                and val == eval_expression(arg.default_value_expr, {})
+                and same_value(eval_expression(arg.default_value_expr, {}))
             )
 
             if not matched:
